@@ -52,6 +52,11 @@ func (q *Command) Sanitize(args ...any) (string, error) {
 			case int64:
 				str = strconv.FormatInt(arg, 10)
 			case float64:
+				// NaN and the infinities have no literal: written out they
+				// would be read as column names
+				if math.IsNaN(arg) || math.IsInf(arg, 0) {
+					return "", fmt.Errorf("invalid arg value: %v has no SQL literal", arg)
+				}
 				str = strconv.FormatFloat(arg, 'f', -1, 64)
 			case bool:
 				str = strconv.FormatBool(arg)
